@@ -147,7 +147,7 @@ func (c *fxCtx) callAct(call *ast.CallExpr, deferred bool) string {
 		case name == "Write" || name == "sendWithWriter" || full == "fmt.Fprintf" || full == "fmt.Fprint" || full == "fmt.Fprintln" || full == "io.WriteString":
 			return ".write"
 		}
-		return ".call " + fxStr(full)
+		return ".call " + fxStr(full+c.constArgs(call))
 	case *ast.Ident:
 		if deferred {
 			return ".call " + fxStr("defer "+f.Name)
@@ -163,6 +163,29 @@ func (c *fxCtx) callAct(call *ast.CallExpr, deferred bool) string {
 		return ".call \"func literal\""
 	}
 	return ".call " + fxStr(exprString(call.Fun))
+}
+
+// constArgs: "(a,b)" when every argument of the call is a constant or a literal (updateState(StateSessionEstablished),
+// streamError("conflict", "no auth loop")), else ""
+func (c *fxCtx) constArgs(call *ast.CallExpr) string {
+	if len(call.Args) == 0 || c.info == nil {
+		return ""
+	}
+	var parts []string
+	for _, a := range call.Args {
+		switch x := a.(type) {
+		case *ast.BasicLit:
+			parts = append(parts, x.Value)
+		case *ast.Ident:
+			if _, ok := c.info.Uses[x].(*types.Const); !ok {
+				return ""
+			}
+			parts = append(parts, x.Name)
+		default:
+			return ""
+		}
+	}
+	return "(" + strings.Join(parts, ",") + ")"
 }
 
 // acts: the acts of the calls (and channel receives) inside an expression, in source order, inner calls first;
@@ -373,6 +396,7 @@ func (c *fxCtx) stmts(list []ast.Stmt, k string) string {
 		c.brk = append(c.brk, kn)
 		hasDefault := false
 		out := ""
+		defaultArm := ""
 		var arms []string
 		for _, cl := range clauses {
 			var body []ast.Stmt
@@ -405,13 +429,22 @@ func (c *fxCtx) stmts(list []ast.Stmt, k string) string {
 					c.bad = "fallthrough"
 				}
 			}
-			arms = append(arms, fxStr(what+": "+label)+"\x00"+wrapActs(head, c.stmts(body, kn)))
+			arm := fxStr(what+": "+label) + "\x00" + wrapActs(head, c.stmts(body, kn))
+			if label == "default" {
+				defaultArm = arm
+			} else {
+				arms = append(arms, arm)
+			}
+		}
+		if defaultArm != "" {
+			arms = append(arms, defaultArm) // the default arm is what runs when no other does: it goes last
 		}
 		c.brk = c.brk[:len(c.brk)-1]
 		// nested branches: arm1 | (arm2 | (... | no arm taken))
 		out = kn
 		_, isSelect := x.(*ast.SelectStmt)
-		if isSelect && !hasDefault && len(arms) > 0 {
+		if (hasDefault || isSelect) && len(arms) > 0 {
+			// with a default arm "no arm taken" is not a path (the default arm, placed last, stands for it);
 			// a select without default blocks until one arm is ready: "no arm" is not a path; the last arm stands for it
 			parts := strings.SplitN(arms[len(arms)-1], "\x00", 2)
 			out = parts[1]
@@ -575,7 +608,7 @@ func genFx(outDir string, pkgs []struct {
 		}
 	}
 	var sb strings.Builder
-	sb.WriteString("-- GENERATED by /verif/go/extract (fx.go) from /repo's working tree. Do not edit; never committed as truth.\nimport XmppVerif.Fx\nnamespace XmppVerif.Gen.Fx\nopen XmppVerif.Fx\nopen XmppVerif.Fx.Fx\nopen XmppVerif.Fx.Act\n\n")
+	sb.WriteString("-- GENERATED by /verif/go/extract (fx.go) from /repo's working tree. Do not edit; never committed as truth.\nimport XmppVerif.Fx\nset_option linter.unusedVariables false\nnamespace XmppVerif.Gen.Fx\nopen XmppVerif.Fx\nopen XmppVerif.Fx.Fx\nopen XmppVerif.Fx.Act\n\n")
 	for _, e := range entries {
 		fmt.Fprintf(&sb, "/-- skeleton of %s -/\ndef %s : Fx :=\n  %s\n\n", e.name, e.lean, e.term)
 	}
